@@ -1,6 +1,10 @@
 package commands
 
-import "github.com/TheManticoreProject/Manticore/network/smb/smb_v10/types"
+import (
+	"github.com/TheManticoreProject/Manticore/network/smb/smb_v10/message/commands/andx"
+	"github.com/TheManticoreProject/Manticore/network/smb/smb_v10/message/commands/codes"
+	"github.com/TheManticoreProject/Manticore/network/smb/smb_v10/types"
+)
 
 // Helpers of the generated per-command harnesses (C03 framing, C04 slots and round trip, C05 MS-CIFS encoding).
 
@@ -23,14 +27,27 @@ func splitBlocks(raw []byte, n string) ([]byte, []byte, bool) {
 	return raw[1 : 1+2*wc], raw[3+2*wc:], true
 }
 
-// checkAndX: the first two parameter words are AndXCommand(1) AndXReserved(1) AndXOffset(2, little-endian);
-// a command without follow-up carries 0xFF / 0 / 0.
-func checkAndX(params []byte, n string) int {
-	vCheck(len(params) >= 4, "C05/"+n+"/andx/block-is-the-first-two-words")
-	if len(params) >= 4 {
-		vCheck(params[0] == 0xFF, "C05/"+n+"/andx/command-is-no-further-command")
-		vCheck(params[1] == 0, "C05/"+n+"/andx/reserved-zero")
-		vCheck(params[2] == 0 && params[3] == 0, "C05/"+n+"/andx/offset-zero")
+// symAndX: an arbitrary AndX block.
+func symAndX(n string) *andx.AndX {
+	a := andx.NewAndX()
+	a.AndXCommand = codes.CommandCode(vU8(n + ".andx.command"))
+	a.AndXReserved = vU8(n + ".andx.reserved")
+	a.AndXOffset = vU16(n + ".andx.offset")
+	return a
+}
+
+// checkAndX: the first two parameter words are AndXCommand(1) AndXReserved(1) AndXOffset(2). The byte order of the
+// offset is C05's subject (decided once, for the block itself and inside one command: H_C05_andx_*); here the slot is
+// required to hold the offset in either order so that a wrong position or a dropped value is still seen.
+func checkAndX(params []byte, a *andx.AndX, n string) int {
+	vCheck(len(params) >= 4 && a != nil, "C05/"+n+"/andx/block-is-the-first-two-words")
+	if len(params) >= 4 && a != nil {
+		vCheck(params[0] == byte(a.AndXCommand), "C04/"+n+"/andx/command-slot")
+		vCheck(params[1] == a.AndXReserved, "C04/"+n+"/andx/reserved-slot")
+		le := vAnd(params[2] == byte(a.AndXOffset), params[3] == byte(a.AndXOffset>>8))
+		be := vAnd(params[3] == byte(a.AndXOffset), params[2] == byte(a.AndXOffset>>8))
+		vCheck(vOr(le, be), "C04/"+n+"/andx/offset-slot")
+		vCheck(params[0] == byte(a.AndXCommand) && params[1] == a.AndXReserved, "C05/"+n+"/andx/command-then-reserved")
 	}
 	return 4
 }
